@@ -4,6 +4,7 @@
 From Coq Require Import ZArith NArith List Bool String.
 From V Require Import Model.Serial Model.ConfigKey Proofs.SerialProofs Proofs.SerialProofsB Proofs.ConfigKeyProofs Proofs.ConfigKeyProofsB.
 From V Require Import Model.SerialX Proofs.SerialProofsX Proofs.ConfigKeyProofsX Gen.SerialReduceGen Proofs.SerialProofsG.
+From V Require Import Model.SerialCtx Proofs.SerialProofsCtx.
 Import ListNotations.
 
 (* ===== Timespan: JSON, YAML and pickle forms, including the canonical empty and the unbounded ends ===== *)
@@ -379,3 +380,84 @@ Theorem names_explicit_shadow_refuted :
     names_explicit ascii_alnum 35%N top = Some l /\ In (n, x) l /\ lookup ascii_alnum top n = Ok y /\ cv_eqb x y = false.
 Proof. exact names_explicit_shadow_refuted_p. Qed.
 Print Assumptions names_explicit_shadow_refuted.
+
+(* ====================================================================================================
+   Extension 2: the per-context memo tables of from_simple (PersistenceContextVars)
+   ==================================================================================================== *)
+
+(* ANY table (key, stored form `put`, hit view `get`, early-return `cacheable`) and ANY history decoded inside one
+   context starting from empty tables: every answer is the answer from_simple gives outside a context, provided
+   key_sound -- for any two serialized forms of the history that share a key, a hit of the later one on what the
+   earlier one stored yields what the later one decodes to by itself.  This is exactly what the code relies on. *)
+Theorem context_cache_transparent : forall (J K V : Type) (key : J -> K) (keqb : K -> K -> bool) (dec : J -> option V)
+    (cacheable : J -> bool) (put : J -> V -> V) (get : J -> V -> option V) (hist : list J),
+  key_sound J K V key keqb dec put get hist ->
+  mrun J K V key keqb dec cacheable put get [] hist = map dec hist.
+Proof. exact memo_transparent_p. Qed.
+Print Assumptions context_cache_transparent.
+
+(* loadedTypes, key (name, storageClass or ""), as coded *)
+Theorem context_cache_transparent_dataset_type : forall u hist,
+  (forall j0 j, In j0 hist -> In j hist -> pair_seqb (dt_key j) (dt_key j0) = true -> dec_dt u j0 <> None -> dec_dt u j = dec_dt u j0) ->
+  dt_run u hist = map (dec_dt u) hist.
+Proof. exact dt_context_transparent_p. Qed.
+Print Assumptions context_cache_transparent_dataset_type.
+
+(* in particular when (name, storageClass) determines the serialized document within the context *)
+Theorem context_cache_transparent_dataset_type_docs : forall u hist,
+  (forall j0 j, In j0 hist -> In j hist -> pair_seqb (dt_key j) (dt_key j0) = true -> j = j0) ->
+  dt_run u hist = map (dec_dt u) hist.
+Proof. exact dt_context_transparent_docs_p. Qed.
+Print Assumptions context_cache_transparent_dataset_type_docs.
+
+(* dataCoordinates, key (frozenset(dataId.items()), records is not None) *)
+Theorem context_cache_transparent_data_id : forall u hist,
+  (forall j0 j, In j0 hist -> In j hist -> jvb_eqb (coord_key j) (coord_key j0) = true -> dec_coord u j0 <> None -> dec_coord u j = dec_coord u j0) ->
+  coord_run u hist = map (dec_coord u) hist.
+Proof. exact coord_context_transparent_p. Qed.
+Print Assumptions context_cache_transparent_data_id.
+
+(* dimensionRecords, key (definition, frozenset(record.items())) *)
+Theorem context_cache_transparent_record : forall u hist,
+  (forall j0 j, In j0 hist -> In j hist -> jvjv_eqb (rec_key j) (rec_key j0) = true -> dec_rec u j0 <> None -> dec_rec u j = dec_rec u j0) ->
+  rec_run u hist = map (dec_rec u) hist.
+Proof. exact rec_context_transparent_p. Qed.
+Print Assumptions context_cache_transparent_record.
+
+(* datasetRefs, key id; the composite is stored, a hit re-derives component and storage class *)
+Theorem context_cache_transparent_ref : forall u hist,
+  key_sound jv string dref ref_key String.eqb (dec_ref u) (ref_put u) (ref_get u) hist ->
+  ref_run u hist = map (dec_ref u) hist.
+Proof. exact ref_context_transparent_p. Qed.
+Print Assumptions context_cache_transparent_ref.
+
+(* keyed on the PARENT storage class (seed C18c) the table is not transparent even when (name, storageClass) determines
+   the type: "x"/S1 then "x"/S2 -> S1 twice; the key as coded answers correctly on the same history *)
+Theorem context_cache_parent_key_refuted :
+  let h := [enc_dt false (c_t "S1" c_g1); enc_dt false (c_t "S2" c_g1)] in
+  map (dec_dt c_u) h = [Some (c_t "S1" c_g1); Some (c_t "S2" c_g1)] /\
+  dt_run c_u h = [Some (c_t "S1" c_g1); Some (c_t "S2" c_g1)] /\
+  dt_run_psc c_u h = [Some (c_t "S1" c_g1); Some (c_t "S1" c_g1)].
+Proof. exact dt_context_psc_key_refuted_p. Qed.
+Print Assumptions context_cache_parent_key_refuted.
+
+(* the UNCHANGED code is not transparent for histories that violate the condition (findings 7-9):
+   same (name, storageClass) with different dimensions; same data ID values with different records; same id, other run *)
+Theorem context_cache_dataset_type_refuted :
+  let h := [enc_dt false (c_t "S1" c_g1); enc_dt false (c_t "S1" c_g2)] in
+  map (dec_dt c_u) h = [Some (c_t "S1" c_g1); Some (c_t "S1" c_g2)] /\
+  dt_run c_u h = [Some (c_t "S1" c_g1); Some (c_t "S1" c_g1)].
+Proof. exact dt_context_same_key_refuted_p. Qed.
+Print Assumptions context_cache_dataset_type_refuted.
+
+Theorem context_cache_data_id_refuted :
+  let h := [enc_coord false (c_c 1); enc_coord false (c_c 2)] in
+  map (dec_coord c_u) h = [Some (c_c 1); Some (c_c 2)] /\ coord_run c_u h = [Some (c_c 1); Some (c_c 1)].
+Proof. exact coord_context_same_key_refuted_p. Qed.
+Print Assumptions context_cache_data_id_refuted.
+
+Theorem context_cache_ref_refuted :
+  let h := [enc_ref false (c_r "run1"); enc_ref false (c_r "run2")] in
+  map (dec_ref c_u) h = [Some (c_r "run1"); Some (c_r "run2")] /\ ref_run c_u h = [Some (c_r "run1"); Some (c_r "run1")].
+Proof. exact ref_context_same_id_refuted_p. Qed.
+Print Assumptions context_cache_ref_refuted.
